@@ -12,6 +12,8 @@ import (
 	"fmt"
 	"net/netip"
 	"reflect"
+	"sort"
+	"strings"
 	"testing"
 	"time"
 
@@ -142,6 +144,30 @@ func (w *world) checkAlways(snap []m.RoutingTableEntry) {
 			case !isDst:
 				w.fail("lookup-not-flagged-destination", "lookup(%s) returned exact route but isDestination=false (after %s)", dst, w.afterOp)
 			}
+			// "Lowest delay" judged from the hop delays themselves, not from the total the
+			// table stored: some other route of the same class and hop count whose delay is
+			// lower even when each of its hops is charged the minimum hop delay and the
+			// returned route's hops are charged nothing extra.
+			if got != nil && got.Source != m.RouteSourcePeer {
+				gotLo := 0
+				for _, h := range got.Path.Hops {
+					gotLo += int(h.Delay)
+				}
+				for i := range snap {
+					o := &snap[i]
+					if o.DstIP != dst || o.Source == m.RouteSourcePeer || len(o.Path.Hops) != len(got.Path.Hops) {
+						continue
+					}
+					oHi := 0
+					for _, h := range o.Path.Hops {
+						oHi += max(int(h.Delay), int(m.MinHopDelay))
+					}
+					if oHi < gotLo && oHi < 65000 {
+						w.fail("lookup-not-lowest-delay", "lookup(%s) returned a %d-hop route whose hop delays add up to %d ms although a %d-hop route with at most %d ms exists (after %s)",
+							dst, len(got.Path.Hops)-1, gotLo, len(o.Path.Hops)-1, oHi, w.afterOp)
+					}
+				}
+			}
 			b := a.best
 			peerMismatch := (got.Source == m.RouteSourcePeer) != (b.Source == m.RouteSourcePeer)
 			if peerMismatch || (b.Source != m.RouteSourcePeer &&
@@ -157,7 +183,24 @@ func (w *world) checkAlways(snap []m.RoutingTableEntry) {
 			continue
 		}
 		if cnt > 3*(2*rp.EntriesPerPrefix+1) {
-			w.fail("gossip-prefix-bound-exceeded", "prefix %s holds %d gossip routes, bound 3*(2*%d+1) (after %s)", pfx, cnt, rp.EntriesPerPrefix, w.afterOp)
+			per := map[netip.Addr][2]int{}
+			for i := range snap {
+				if snap[i].RoutingPrefix == pfx {
+					c := per[snap[i].DstIP]
+					if snap[i].Source == m.RouteSourcePeer {
+						c[0]++
+					} else {
+						c[1]++
+					}
+					per[snap[i].DstIP] = c
+				}
+			}
+			var parts []string
+			for d, c := range per {
+				parts = append(parts, fmt.Sprintf("%s: %d peer + %d other", d, c[0], c[1]))
+			}
+			sort.Strings(parts)
+			w.fail("gossip-prefix-bound-exceeded", "prefix %s holds %d gossip routes, bound 3*(2*%d+1) (after %s); per destination: %s", pfx, cnt, rp.EntriesPerPrefix, w.afterOp, strings.Join(parts, "; "))
 		}
 	}
 }
@@ -189,11 +232,13 @@ func (w *world) genPath(dst netip.Addr, nextHop netip.Addr) m.SwitchPath {
 		return m.SwitchLabel(1 + tp.Intn(127))
 	}
 	delay := func() uint16 {
-		switch tp.Intn(4) {
-		case 0:
+		switch tp.Intn(9) {
+		case 0, 1:
 			return 0
-		case 1:
+		case 2, 3:
 			return uint16(1 + tp.Intn(9))
+		case 4: // a very slow hop: sums of two or three of these pass 65535
+			return uint16(20000 + tp.Intn(45536))
 		default:
 			return uint16(tp.Intn(300))
 		}
